@@ -17,12 +17,17 @@ def chk(pid, text, note, technique, design_ref):
     )
 
 chk("C06",
-    "Coq theorems over the executable model of systematic_resample: exactly n valid non-decreasing indices for every "
-    "arithmetic instance (Q and binary64) and every input; closed form of the comb, bin characterisation and "
-    "floor/ceil copy counts over Q for every n, every non-negative weight vector of sum 1 and every offset in [0,1); "
-    "inverse-CDF range theorem for the multinomial scheme. Tie: regenerated Gen.Resample + Link lemmas, and a "
-    "bit-exact binary64 replay of the model against the implementation on a breakpoint sweep of u0.",
-    "Trusted: Coq kernel/vm_compute; python translator and harness; numpy.sum passed as oracle value; "
+    "Coq theorems over the executable model of systematic_resample (teeth clipped to their cell, loop bounded at the last "
+    "non-zero weight): exactly n valid non-decreasing indices for every arithmetic instance (Q and binary64) and every "
+    "input; closed form of the comb, bin characterisation and floor/ceil copy counts over Q for every n, every "
+    "non-negative weight vector of sum 1 (zero weights anywhere) and every offset in [0,1); unbiasedness (the offsets for "
+    "which tooth i selects index k form an interval, the n interval lengths add up to n*w_k); no zero-weight index is "
+    "ever selected - over Q, for every arithmetic satisfying two laws, and for binary64 itself with the laws proved through "
+    "Flocq; inverse-CDF range theorem for the multinomial scheme. Tie: regenerated Gen.Resample + Link lemmas, and a "
+    "bit-exact binary64 replay of the model against the implementation on a breakpoint sweep of u0 (incl. offsets within "
+    "rounding distance of 1).",
+    "Trusted: Coq kernel/vm_compute; Reals axioms and the standard library's float specification axioms (FloatAxioms.*, "
+    "through Flocq) for the binary64 theorem; python translator and harness; numpy.sum passed as oracle value; "
     "numpy.random.choice modelled as inverse-CDF search (validated under replayed seeds); Q theorems idealise rounding.",
     "machine-checked proof in Coq (induction over the comb; Q arithmetic) + translator/bit-exact correspondence",
     "DESIGN.md section 6, C06")
@@ -172,11 +177,15 @@ chk("C14",
     "Coq theorems: for every clustering cadence, every sequence of warm-up/annealing iterations and every starting "
     "iteration number (fresh or resumed with an unfitted model) prediction never meets an unfitted model; under "
     "coverage (every label below K predicted for some training point) the kernel's mode for assignment a is the mode "
-    "fitted from the points labelled a; the number of modes never exceeds K; the pinned cadence and the rank/label "
-    "mismatch without coverage are refuted by computed witnesses. Tie: Gen.Cluster (refit test, per-unique-label mode "
-    "construction, assignment source, kernel indexing, dof fallback) + Link; hooks at the kernel entry of real runs "
-    "over cluster_every x caps x normalize x kernels (and after resume) checking assignments < K, finite means, "
-    "symmetric positive-definite scales, positive finite dof and coverage; Trainer/Resampler on starved weighted pools.",
+    "fitted from the points labelled a; on iterations that reuse the clustering the code tests coverage and refits, so "
+    "labels index their own modes whenever a fresh fit covers its training set; the number of modes never exceeds K; "
+    "the pinned cadence, unchecked reuse and the rank/label mismatch without coverage are refuted by computed "
+    "witnesses. Tie: Gen.Cluster (refit test, coverage test of the predict-only branch, per-unique-label mode "
+    "construction, assignment source, kernel indexing, dof fallback) and the shared warm-up fact of Gen.Schedule + Links; "
+    "hooks at the kernel entry of real runs over cluster_every x caps x normalize x kernels (and after resume) checking "
+    "assignments < K, label = cluster of the particle, finite means, symmetric positive-definite scales, positive finite "
+    "dof and coverage; Trainer/Resampler on starved pools, on reused clusterings with a cluster keeping 0..3 particles, "
+    "and at the smallest positive temperatures.",
     "Trusted: Coq kernel; python extractor/harness; coverage is a monitored hypothesis (a violating pool is reported "
     "with the pool as replay); cholesky success witnesses positive-definiteness.",
     "machine-checked proof in Coq (schedule induction; list filtering) + cadence extraction/kernel-entry hooks",
@@ -244,10 +253,15 @@ chk("C03",
     "Lebesgue (RWM); the extracted gamma shape/scale make the drawn scale the inverse-gamma conditional of the t scale "
     "mixture; the Crank-Nicolson energy Qf(x)+Qf(y-ax)/sigma^2 is symmetric for every symmetric bilinear form when "
     "a^2+sigma^2=1 (MathComp), hence the joint density of (x,s,y) is symmetric; the extracted coefficients satisfy "
-    "a^2+sigma^2=1. Hard boundaries: the redraw-until-inside rule is in detailed balance with pi*P_in, not pi (the "
-    "known finding), while reject-outside would be with pi. Tie: Gen.Kernel/Gen.Shift + Links; injected-randomness "
-    "proposals, gamma parameters and correction factors against verified enclosures of the generated definitions; the "
-    "Metropolis test with injected uniforms; fixed-seed ensemble stationarity (interior, periodic, reflective; hard boundary = finding).",
+    "a^2+sigma^2=1. Boundaries: out-of-cube proposals are rejected (extracted), and for every reference-reversible "
+    "proposal on the whole space that chain is in detailed balance with the target extended by zero, for every pair of "
+    "points, and never leaves the cube; the symmetric RWM step stays symmetric under wrapping and folding (sum over "
+    "pre-images, every symmetric truncation); tpCN rejects on every coordinate (extracted) because wrapping a proposal "
+    "reversible w.r.t. a non-periodic reference is refuted; the pinned tree's redraw-until-inside rule balances pi*P_in "
+    "(refuted). Tie: Gen.Kernel/Gen.Shift + Links; injected-randomness proposals, gamma parameters and correction factors "
+    "(incl. nu < 2, and on the state reached after real iterations) against verified enclosures of the generated "
+    "definitions; the Metropolis test with injected uniforms; fixed-seed ensemble stationarity for both kernels on "
+    "interior, periodic, reflective and hard-boundary targets.",
     "Trusted: Coq kernel; Reals axioms/classic/funext (named in evidence); python extractor/harness; the lift from "
     "pointwise density identities to measures and the two classical integral facts are not formalised; step-size "
     "adaptation, correlated reflective folds and tpCN with folded coordinates are not claimed.",
@@ -261,10 +275,12 @@ chk("C01",
     "computes (generated pieces) is that balance-heuristic weight and posterior()'s exp(logw-max)/sum is its "
     "normalisation; imported ingredients: temperature coherence (C05), kernel invariance with its guards (C03), "
     "resampling (C06). NOT carried: the finite-particle bias bound, the effect of adaptive step sizes and plug-in "
-    "logZ_t, i.e. the ensemble statement itself - validated on seeded ensembles of real runs (interior, periodic, "
-    "boundary-abutting targets) against known moments within 6 standard errors plus an allowance.",
+    "logZ_t, i.e. the ensemble statement itself - validated on seeded ensembles of real runs (interior, correlated, "
+    "periodic incl. circular moments, boundary-abutting, reflective, two-mode with mode masses) against known values "
+    "within 6 standard errors plus an allowance, plus deterministic probes (exact-draw history with unequal batches; "
+    "stored (beta_t, logZ_t) pairs recomputed from the history prefix).",
     "Trusted: Coq kernel; Reals axioms/classic/funext (named); python translators/harness; the ensemble claim is "
-    "validated, not proved; hard-boundary bias inherited from C03 is a listed known finding.",
+    "validated, not proved; runs aborted by the listed C14/C18 finding are left out and counted.",
     "machine-checked proof in Coq of the estimator identities (partial) + translator ties + seeded-ensemble validation",
     "DESIGN.md section 6, C01")
 chk("C02",
@@ -272,8 +288,10 @@ chk("C02",
     "pieces), recomputed at beta=1 after the loop and returned by evidence(); that mean weight is unbiased for Z_beta "
     "when batches are drawn from their tempered laws; independence in trace form: no seeding call on a run path "
     "resets the stream to a constant and no seed is forwarded, so a run consumes its own seed's stream. NOT carried: "
-    "the 1/sqrt(R) rate and the O(1/N) plug-in bias - validated on seeded ensembles at N=32 and N=128 against an "
-    "analytically known evidence (6 standard errors + allowance; error must not persist with N; distinct seeds distinct results).",
+    "the 1/sqrt(R) rate and the O(1/N) plug-in bias - validated on seeded ensembles against analytically known "
+    "evidences (interior Gaussian for both kernels with 192 runs at N=128: 4 standard errors + 0.03; dynamic mode with a "
+    "tight target; half-supported and two-mode targets), the warm-up correction counted once (C11's theorem), the global "
+    "stream state after training steps differing between seeds and no bit-identical particles across seeds.",
     "Trusted: Coq kernel; Reals axioms/classic/funext (named); python translators/harness; the ensemble claim is "
     "validated, not proved.",
     "machine-checked proof in Coq of the evidence identities and seeding-trace facts (partial) + translator ties + seeded-ensemble validation",
